@@ -354,7 +354,7 @@ def tasks_for(ctx, quick):
         vm("hex2d", 0, 1, 1, nsamples=200, chunk=100)
         vm("hcp", 0, 2, 1, nsamples=120, chunk=40)          # more sites than site classes
         vm("diamond", 0, 1, 1, nsamples=150, chunk=75)
-        vm("honeycomb", 0, 1, 1, exhaustive=True, chunk=250)
+        vm("honeycomb", 0, 1, 1, nsamples=150, chunk=75)
         vm("l12", 1, 1, 1, nsamples=150, chunk=50)
         vm("polarrect", 1, 2, 1, nsamples=120, chunk=40)    # two site classes
         vm("fcc", 0, 1, 2, nsamples=100, chunk=50)
@@ -393,8 +393,9 @@ def run(ctx):
     quick = ctx.tier == "quick"
     ctx.rule = ("Interstitial / VacancyMediated calculators on catalogue worlds in random orientation; tags parsed back to grid "
                 "geometry and bound to the calculator's class lists and to the definitional symmetry classes by TLC; user "
-                "dictionaries generated by TLC from TagMap (all 3^#classes count vectors on square/diamond/honeycomb[/hex2d/b2], "
-                "seeded samples elsewhere; 0-2 bogus tags) fed to tags2preene(VERBOSE=True) and judged by TLC; non-trivial = "
+                "dictionaries defined by TagMap.Scenario (all admissible 0/1/2-member count vectors, enumerated by TLC, on square "
+                "[thorough: + hex2d, diamond, honeycomb, b2]; seeded samples of count vectors elsewhere; 0-2 bogus tags) fed to "
+                "tags2preene(VERBOSE=True) and judged by TLC; non-trivial = "
                 "scenario with a duplicated class or with both covered and uncovered classes")
     from onsager import OnsagerCalc      # noqa: F401 -- import once, before the workers are forked
     tasks = tasks_for(ctx, quick)
